@@ -14,6 +14,7 @@ import (
 	"strconv"
 	"strings"
 	"sync"
+	"sync/atomic"
 	"syscall"
 	"time"
 )
@@ -83,6 +84,18 @@ func ChildMain(ck *Check, tier string, seed int64, from, to int, out string) int
 	}
 	reset(from)
 	var pb [8]byte
+	go func() { // heartbeats of long cases (Beat) next to the case index: "slow" and "stuck" are different things
+		var hb [8]byte
+		last := uint64(0)
+		for {
+			time.Sleep(200 * time.Millisecond)
+			if b := atomic.LoadUint64(&beats); b != last {
+				last = b
+				binary.LittleEndian.PutUint64(hb[:], b)
+				prog.WriteAt(hb[:], 8)
+			}
+		}
+	}()
 	for i := from; i < to; i++ {
 		binary.LittleEndian.PutUint64(pb[:], uint64(i))
 		prog.WriteAt(pb[:], 0)
@@ -341,6 +354,20 @@ func runChildren(ck *Check, agg *Agg, tier string, seed int64, n int, workDir, s
 	wg.Wait()
 }
 
+var beats uint64
+
+// Beat tells the stall monitor that the running case is alive: long cases (stress loops, process conversations) call it
+// as they go, so that only a case that stops making progress - not one that merely takes long - counts as hung.
+func Beat() { atomic.AddUint64(&beats, 1) }
+
+func readBeat(path string) uint64 {
+	b, err := os.ReadFile(path)
+	if err != nil || len(b) < 16 {
+		return 0
+	}
+	return binary.LittleEndian.Uint64(b[8:16])
+}
+
 func readProg(path string) int {
 	b, err := os.ReadFile(path)
 	if err != nil || len(b) < 8 {
@@ -376,6 +403,7 @@ func runBatch(ck *Check, agg *Agg, tier string, seed int64, b batch, workDir, ex
 		stall = 30 * time.Second
 	}
 	lastIdx, lastChange := -2, time.Now()
+	lastBeat := uint64(0)
 	stalled := false
 	var werr error
 wait:
@@ -384,9 +412,9 @@ wait:
 		case werr = <-done:
 			break wait
 		case <-time.After(250 * time.Millisecond):
-			cur := readProg(out + ".prog")
-			if cur != lastIdx {
-				lastIdx, lastChange = cur, time.Now()
+			cur, bt := readProg(out+".prog"), readBeat(out+".prog")
+			if cur != lastIdx || bt != lastBeat {
+				lastIdx, lastBeat, lastChange = cur, bt, time.Now()
 			} else if time.Since(lastChange) > stall {
 				stalled = true
 				cmd.Process.Signal(syscall.SIGQUIT) // goroutine dump into the log
@@ -457,6 +485,9 @@ wait:
 		confirm := ck.Confirm
 		if confirm == 0 {
 			confirm = 60 * time.Second
+		}
+		if confirm < stall {
+			confirm = stall // alone the case gets at least the window it had in the batch
 		}
 		ok, dump2 := confirmStall(ck, tier, seed, cur, workDir, exe, confirm, out)
 		if ok {
@@ -565,20 +596,29 @@ func confirmStall(ck *Check, tier string, seed int64, idx int, workDir, exe stri
 	}
 	done := make(chan error, 1)
 	go func() { done <- cmd.Wait() }()
-	select {
-	case <-done:
-		logf.Close()
-		return false, ""
-	case <-time.After(budget):
-		cmd.Process.Signal(syscall.SIGQUIT)
+	// the budget is a window WITHOUT progress (a case that beats is alive), under a generous overall cap
+	lastBeat, lastChange, start := uint64(0), time.Now(), time.Now()
+	for {
 		select {
 		case <-done:
-		case <-time.After(5 * time.Second):
-			cmd.Process.Kill()
-			<-done
+			logf.Close()
+			return false, ""
+		case <-time.After(250 * time.Millisecond):
 		}
-		logf.Close()
-		return true, tailFile(o2+".log", 1<<16)
+		if bt := readBeat(o2 + ".prog"); bt != lastBeat {
+			lastBeat, lastChange = bt, time.Now()
+		}
+		if time.Since(lastChange) > budget || time.Since(start) > 40*budget {
+			cmd.Process.Signal(syscall.SIGQUIT)
+			select {
+			case <-done:
+			case <-time.After(5 * time.Second):
+				cmd.Process.Kill()
+				<-done
+			}
+			logf.Close()
+			return true, tailFile(o2+".log", 1<<16)
+		}
 	}
 }
 
